@@ -1,51 +1,96 @@
 """Translator plug-in for C02: the constants of the geometry code that the model and theorems consume.
 
 * the values of `geometry_operators.Operator` (the symbols MontePy writes and looks for),
-* the operator text `HalfSpace._ensure_has_nodes` gives to a new node, per operator (read from the AST of the
-  function: the string constants assigned to `operator` under `self.operator == Operator.X`),
-* the parenthesis tokens `HalfSpace._link_child` creates (the `PaddingNode("(")`, `PaddingNode(")")` constants).
+* the operator text a HalfSpace that was built in Python (no syntax node yet) gets for its new node, per operator,
+* the parenthesis tokens put around a child that needs them.
+
+The last two are OBSERVED (since round 7): probe HalfSpaces are built from scratch (`11 & -22`, `11 | -22`, `~cell 33`,
+`~11`, `(11 | -22) & 44`), the working tree's `_ensure_has_nodes` is run on them (the step `_update_values` starts
+with; `_update_values` itself when the tree has no method of that name) and the text around the leaves' numbers in
+`node.format()` is recorded.  The first version read string constants from the AST of the two named methods
+`HalfSpace._ensure_has_nodes` / `HalfSpace._link_child` and raised a no-failing-input-found alarm when a
+behaviour-preserving rewrite moved them into helpers.  A fact that cannot be observed (a probe raises, the leaves'
+numbers are not found in the text, two probes disagree) is emitted as the empty text with the reason in a comment:
+the translator never raises, and only the theorems over the geometry model fail to build.
 """
-import ast
-import inspect
 import json
-import textwrap
+import warnings
 
 
 def lstr(s):
     return json.dumps(s, ensure_ascii=True)
 
 
+def observe_new_texts():
+    """-> (operator texts [(Operator name, text)], parentheses [open, close] or [], notes [str])"""
+    from montepy.surfaces.half_space import HalfSpace, UnitHalfSpace
+
+    notes = []
+
+    def leaf(n, side=True, is_cell=False):
+        return UnitHalfSpace(n, side, is_cell)
+
+    def text(hs):
+        run = getattr(hs, "_ensure_has_nodes", None) or getattr(hs, "_update_values")
+        run()
+        return hs.node.format()
+
+    def attempt(name, build):
+        try:
+            with warnings.catch_warnings():
+                warnings.simplefilter("ignore")
+                t = text(build())
+            if not isinstance(t, str):
+                raise TypeError(f"format() gave {type(t).__name__}")
+            return t
+        except Exception as e:  # noqa: BLE001  (an unknown fact, never a failure of the translator)
+            notes.append(f"{name}: {type(e).__name__}: {e}"[:200])
+            return None
+
+    def between(name, t, first, second):
+        """the text between the leaves `first` and `second` when t is first + text + second"""
+        if t is None:
+            return None
+        if t.startswith(first) and t.endswith(second) and len(t) >= len(first) + len(second):
+            return t[len(first): len(t) - len(second)]
+        notes.append(f"{name}: {t!r} is not {first!r} ... {second!r}")
+        return None
+
+    oprs = []
+    inter = between("INTERSECTION", attempt("INTERSECTION", lambda: leaf(11) & leaf(22, False)), "11", "-22")
+    union = between("UNION", attempt("UNION", lambda: leaf(11) | leaf(22, False)), "11", "-22")
+    compl = between("COMPLEMENT", attempt("COMPLEMENT", lambda: ~leaf(33, True, True)), "", "33")
+    for name, val in (("INTERSECTION", inter), ("UNION", union), ("COMPLEMENT", compl)):
+        if val is not None:
+            oprs.append((name, val))
+    parens = []
+    # the complement of a surface half-space needs parentheses: compl + "(" + "11" + ")"
+    t = attempt("parentheses", lambda: ~leaf(11))
+    if t is not None and compl is not None:
+        if t.startswith(compl) and t.count("11") == 1:
+            o, c = t[len(compl):].split("11")
+            parens = [o, c]
+        else:
+            notes.append(f"parentheses: {t!r} is not {compl!r} ( 11 )")
+    # a union under an intersection needs them too; it has to tell the same
+    t2 = attempt("parentheses2", lambda: (leaf(11) | leaf(22, False)) & leaf(44))
+    if parens and t2 is not None and inter is not None and union is not None:
+        want = parens[0] + "11" + union + "-22" + parens[1] + inter + "44"
+        if t2 != want:
+            notes.append(f"parentheses: probes disagree: {t2!r} against {want!r}")
+            parens = []
+    elif parens and t2 is None:
+        parens = []
+    return oprs, parens, notes
+
+
 def generate(write):
     from montepy.geometry_operators import Operator
-    from montepy.surfaces.half_space import HalfSpace
 
-    src = textwrap.dedent(inspect.getsource(HalfSpace._ensure_has_nodes))
-    tree = ast.parse(src)
-    new_text = []
-    for node in ast.walk(tree):
-        if isinstance(node, ast.If) and isinstance(node.test, ast.Compare):
-            t = node.test
-            # self.operator == Operator.X
-            if (
-                isinstance(t.left, ast.Attribute) and t.left.attr == "operator"
-                and len(t.comparators) == 1 and isinstance(t.comparators[0], ast.Attribute)
-                and isinstance(t.comparators[0].value, ast.Name) and t.comparators[0].value.id == "Operator"
-            ):
-                for st in node.body:
-                    if (
-                        isinstance(st, ast.Assign) and len(st.targets) == 1 and isinstance(st.targets[0], ast.Name)
-                        and st.targets[0].id == "operator" and isinstance(st.value, ast.Constant) and isinstance(st.value.value, str)
-                    ):
-                        new_text.append((t.comparators[0].attr, st.value.value))
-    parens = []
-    link = getattr(HalfSpace, "_link_child", None)
-    if link is not None:
-        for node in ast.walk(ast.parse(textwrap.dedent(inspect.getsource(link)))):
-            if (
-                isinstance(node, ast.Call) and isinstance(node.func, ast.Name) and node.func.id == "PaddingNode"
-                and len(node.args) == 1 and isinstance(node.args[0], ast.Constant) and isinstance(node.args[0].value, str)
-            ):
-                parens.append(node.args[0].value)
+    try:
+        new_text, parens, notes = observe_new_texts()
+    except Exception as e:  # noqa: BLE001  (unknown facts; the theorems over them fail, the translator does not)
+        new_text, parens, notes = [], [], [f"probes could not be built: {type(e).__name__}: {e}"[:200]]
     def codes(t):
         return "[" + ", ".join(str(ord(ch)) for ch in t) + "]"
 
@@ -57,14 +102,16 @@ def generate(write):
     body += "/-- the same values as code points (kernel-reducible) -/\n"
     body += f"def operatorUnionCodes : List Nat := {codes(ov.get('UNION', ''))}\n"
     body += f"def operatorComplementCodes : List Nat := {codes(ov.get('COMPLEMENT', ''))}\n"
-    body += "/-- half_space.py:HalfSpace._ensure_has_nodes: the operator text of a new node, per operator -/\n"
+    body += "/-- half_space.py:HalfSpace._ensure_has_nodes: the operator text of a new node, per operator (observed on probes) -/\n"
     body += "def newOperatorText : List (String × String) := [" + ", ".join(f"({lstr(a)}, {lstr(b)})" for a, b in new_text) + "]\n"
     body += f"def newOprInterCodes : List Nat := {codes(nt.get('INTERSECTION', ''))}\n"
     body += f"def newOprUnionCodes : List Nat := {codes(nt.get('UNION', ''))}\n"
     body += f"def newOprComplCodes : List Nat := {codes(nt.get('COMPLEMENT', ''))}\n"
-    body += "/-- half_space.py:HalfSpace._link_child: the tokens of new parentheses (start_pad, end_pad) -/\n"
+    body += "/-- half_space.py:HalfSpace._link_child: the tokens of new parentheses (start_pad, end_pad) (observed on probes) -/\n"
     body += "def newParentheses : List String := [" + ", ".join(lstr(p) for p in parens) + "]\n"
     body += f"def newParenOpenCodes : List Nat := {codes(parens[0] if len(parens) > 0 else '')}\n"
     body += f"def newParenCloseCodes : List Nat := {codes(parens[1] if len(parens) > 1 else '')}\n"
+    for n in notes:
+        body += "-- not observed: " + lstr(n) + "\n"
     body += "\nend MontePyVerif.Gen\n"
     write("Geometry.lean", body)
